@@ -1,0 +1,33 @@
+//go:build verif
+
+package bstream
+
+import (
+	"sync/atomic"
+	"time"
+)
+
+// Schedule points for the verification harness (build tag `verif` only). The harness registers a
+// callback that is invoked, on the calling goroutine, at every named point.
+
+var verifHook atomic.Value // of func(name string)
+
+// SetVerifHook registers (or, with nil, removes) the schedule-point callback.
+func SetVerifHook(f func(name string)) {
+	if f == nil {
+		f = func(string) {}
+	}
+	verifHook.Store(f)
+}
+
+func verifPoint(name string) {
+	if f, ok := verifHook.Load().(func(name string)); ok {
+		f(name)
+	}
+}
+
+// SetVerifEternalRestartWaitTime sets the delay used by EternalSource instances created afterwards.
+func SetVerifEternalRestartWaitTime(d time.Duration) { eternalRestartWaitTime = d }
+
+// SetVerifSourceReconnectDelay sets the delay between two MultiplexedSource.connectSources rounds.
+func SetVerifSourceReconnectDelay(d time.Duration) { sourceReconnectDelay = d }
